@@ -10,7 +10,8 @@ UDP (stateless, one line per query):
 * addr      `4:<ip as decimal>:<port>` / `6:<ip as decimal>:<port>`
 * questions `-` or `name/type/class,…` (name token of Drv/Proto)
 * event     `D;<delay>;<src addr>;<parses01>;<response01>;<id>;<questions>;<- or =rawhex>` or `E;<delay>`
-answer: `ok <transmission>.<event index> c=<consumed per started transmission>` / `err c=…` / `timeout c=…`
+answer: `ok <transmission>.<event index> c=<consumed per started transmission> k=<class>` / `err c=… k=…` /
+`timeout c=… k=…`; class = `-`, or `undecodable` / `case` when a datagram of that known-finding class ended the query
 -/
 namespace HickoryVerif.Drv.C16
 open HickoryVerif HickoryVerif.Drv HickoryVerif.UdpMatch
@@ -64,6 +65,11 @@ def showQuery : QueryOutcome → String
   | .err => "err"
   | .timeout => "timeout"
 
+def showEndClass : EndClass → String
+  | .none => "-"
+  | .undecodable => "undecodable"
+  | .caseMismatch => "case"
+
 def handleUdp (toks : List String) : Option String :=
   match splitBar toks with
   | [timeout, interval, floor, maxr, server, id, cr, qs] :: scripts => do
@@ -72,7 +78,8 @@ def handleUdp (toks : List String) : Option String :=
     let c : Config := { timeout := timeout, interval := retryInterval interval floor, maxRetries := maxr }
     let rq : Request := { server := server, id := id, caseRand := cr, questions := qs }
     let ss ← scripts.mapM fun s => s.mapM parseEvent
-    pure (showQuery (query c rq ss) ++ " " ++ showConsumed (consumedList c rq ss))
+    pure (showQuery (query c rq ss) ++ " " ++ showConsumed (consumedList c rq ss) ++ " k=" ++
+      showEndClass (queryEndClass c rq ss))
   | _ => none
 
 /-! ## multiplexer blocks
